@@ -41,6 +41,20 @@ def _verify_one(args):
         from pyvc.run import verify_contract
         k = W.contracts[path]
         rep = verify_contract(W, k)
+        if not rep.error and any(r.status == 'unknown' for r in rep.results):
+            # a solver timeout is not a verdict: decide the function once more with four times the budget, one obligation
+            # at a time (verdicts must not flip because all cores happened to be busy)
+            from pyvc import solve, run as _run
+            saved = (solve.Z3_TIMEOUT_MS, solve.QUANT_TIMEOUT_MS, solve.CVC5_TIMEOUT_S, _run.PAR_N)
+            solve.Z3_TIMEOUT_MS, solve.QUANT_TIMEOUT_MS, solve.CVC5_TIMEOUT_S, _run.PAR_N = saved[0] * 4, saved[1] * 3, saved[2] * 3, 1
+            try:
+                rep2 = verify_contract(W, k)
+            finally:
+                solve.Z3_TIMEOUT_MS, solve.QUANT_TIMEOUT_MS, solve.CVC5_TIMEOUT_S, _run.PAR_N = saved
+            if not rep2.error and sum(1 for r in rep2.results if r.status == 'unknown') < sum(1 for r in rep.results if r.status == 'unknown'):
+                rep2.time_s += rep.time_s
+                rep = rep2
+                out['retried_with_larger_budget'] = True
         out['error'], out['info'], out['stats'], out['time_s'] = rep.error, rep.info, rep.stats, rep.time_s
         for r in rep.results:
             d = {'name': r.vc.name, 'status': r.status, 'backend': r.backend, 'time_s': round(r.time_s, 4),
